@@ -83,10 +83,11 @@ def CInv (p : PCfg) (cls : RV.Ingress.Class) (us : List (Option RV.Custom.Script
 
 /-- **the provider `newNetworkProvider` builds for custom refs + Ingress + Gateway is lawful**: *verified* means
     that every member's objects carry the step, `clean` that every member's objects are clean; it needs at most
-    1 + 2 + 1 rounds of rewriting. -/
+    1 + 2 + 1 rounds of rewriting.  (`hne`: with equal Service names no provider is built at all —
+    `newNetworkProvider_sameService_refused`.) -/
 theorem newNetworkProvider_full_lawful (p : PCfg) (cls : RV.Ingress.Class)
     (us : List (Option RV.Custom.Script × RV.Custom.Obj)) (st : RV.Ingress.Ingress)
-    (hc : p.custom = true) (hi : p.ingress = some (some cls)) (hg : p.gateway = true) :
+    (hc : p.custom = true) (hi : p.ingress = some (some cls)) (hg : p.gateway = true) (hne : p.canary ≠ p.stable) :
     ∃ P μ, mkProvider p = some P ∧
       LawfulProvider P (CInv p cls us st)
         (fun g s => (cuSpecB p.codec s g.1 = true ∧ cuStatelessB p.codec s us g.1 = true) ∧
@@ -101,18 +102,19 @@ theorem newNetworkProvider_full_lawful (p : PCfg) (cls : RV.Ingress.Class)
   refine ⟨composite (providerList p),
     fun g s => cuMu p.codec g.1 s + (igMu ⟨cls, p.ingName, p.stable, p.canary⟩ g.2.1 s + gwMu ⟨p.stable, p.canary⟩ g.2.2 s),
     ?_, ?_⟩
-  · simp [mkProvider, hi, hl]
+  · simp [mkProvider, gatewayRefused, RV.Gateway.Conf.refused, hi, hl, hne]
   · rw [hl, composite3_eq]
     exact pairP_lawful (cu_lawful p.codec us)
       (pairP_lawful (ig_lawful ⟨cls, p.ingName, p.stable, p.canary⟩ st) (seq_idle_lawful (gw_lawful ⟨p.stable, p.canary⟩)))
 
 /-- a ref with a Gateway only: `newNetworkProvider` returns the Gateway provider itself -/
-theorem newNetworkProvider_gateway_lawful (p : PCfg) (hc : p.custom = false) (hi : p.ingress = none) (hg : p.gateway = true) :
+theorem newNetworkProvider_gateway_lawful (p : PCfg) (hc : p.custom = false) (hi : p.ingress = none) (hg : p.gateway = true)
+    (hne : p.canary ≠ p.stable) :
     mkProvider p = some (onSnd (onSnd (gwProvider ⟨p.stable, p.canary⟩))) ∧
     LawfulProvider (onSnd (onSnd (gwProvider ⟨p.stable, p.canary⟩)) : Provider Strat CNet)
       (fun g => gwInv ⟨p.stable, p.canary⟩ g.2.2) (fun g s => gwSpecB ⟨p.stable, p.canary⟩ s g.2.2 = true)
       (fun g => gwCleanB ⟨p.stable, p.canary⟩ g.2.2 = true) (fun g s => gwMu ⟨p.stable, p.canary⟩ g.2.2 s) 1 :=
-  ⟨by simp [mkProvider, providerList, hc, hi, hg], onSnd_lawful (onSnd_lawful (gw_lawful _))⟩
+  ⟨by simp [mkProvider, gatewayRefused, RV.Gateway.Conf.refused, providerList, hc, hi, hg, hne], onSnd_lawful (onSnd_lawful (gw_lawful _))⟩
 
 /-- a ref with custom refs only -/
 theorem newNetworkProvider_custom_lawful (p : PCfg) (us : List (Option RV.Custom.Script × RV.Custom.Obj))
@@ -121,7 +123,7 @@ theorem newNetworkProvider_custom_lawful (p : PCfg) (us : List (Option RV.Custom
     LawfulProvider (onFst (cuProvider p.codec) : Provider Strat CNet)
       (fun g => cuInv p.codec us g.1) (fun g s => cuSpecB p.codec s g.1 = true ∧ cuStatelessB p.codec s us g.1 = true)
       (fun g => cuCleanB g.1 = true) (fun g s => cuMu p.codec g.1 s) 1 :=
-  ⟨by simp [mkProvider, providerList, hc, hi, hg], onFst_lawful (cu_lawful _ _)⟩
+  ⟨by simp [mkProvider, gatewayRefused, providerList, hc, hi, hg], onFst_lawful (cu_lawful _ _)⟩
 
 /-- a ref with an Ingress only -/
 theorem newNetworkProvider_ingress_lawful (p : PCfg) (cls : RV.Ingress.Class) (st : RV.Ingress.Ingress)
@@ -132,7 +134,140 @@ theorem newNetworkProvider_ingress_lawful (p : PCfg) (cls : RV.Ingress.Class) (s
       (fun g s => igSpecB ⟨cls, p.ingName, p.stable, p.canary⟩ s g.2.1 = true ∧
         igFreshB ⟨cls, p.ingName, p.stable, p.canary⟩ s g.2.1 = true)
       (fun g => igCleanB g.2.1 = true) (fun g s => igMu ⟨cls, p.ingName, p.stable, p.canary⟩ g.2.1 s) 2 :=
-  ⟨by simp [mkProvider, providerList, hc, hi, hg], onSnd_lawful (onFst_lawful (ig_lawful _ _))⟩
+  ⟨by simp [mkProvider, gatewayRefused, providerList, hc, hi, hg], onSnd_lawful (onFst_lawful (ig_lawful _ _))⟩
+
+/-! ## `newNetworkProvider` refuses a Gateway API ref without a canary Service of its own -/
+
+/-- the invariant of the Gateway provider speaks about two different Service names -/
+theorem ne_of_gwInv {c : RV.Gateway.Conf} {st : Option (List RV.Gateway.Rule)} (h : gwInv c st) : c.canary ≠ c.stable :=
+  fun e => ne_of_confOk' h.1 e.symm
+
+/-- the constructor refuses exactly the configurations outside the hypothesis `confOk` of the C13 theorems: every
+    Gateway provider that exists satisfies it -/
+theorem refused_iff_not_confOk (c : RV.Gateway.Conf) : c.refused = !RV.Oracle.C13.confOk c := by
+  unfold RV.Gateway.Conf.refused RV.Oracle.C13.confOk
+  by_cases h : c.canary = c.stable
+  · rw [h]; simp
+  · have h' : ¬ c.stable = c.canary := fun e => h e.symm
+    have e1 : (c.canary == c.stable) = false := by simpa using h
+    have e2 : (c.stable != c.canary) = true := by simpa using h'
+    rw [e1, e2]; rfl
+
+/-- **`newNetworkProvider_sameService_refused`** — a ref with a Gateway and a canary Service name equal to the
+    stable one: `NewGatewayTrafficRouting` returns an error, whatever else the ref names -/
+theorem newNetworkProvider_sameService_refused (p : PCfg) (hg : p.gateway = true) (he : p.canary = p.stable) :
+    mkProvider p = none := by
+  unfold mkProvider
+  split
+  · rfl
+  · simp [gatewayRefused, RV.Gateway.Conf.refused, hg, he]
+
+/-- … so a Gateway provider that exists has two different Service names (`confOk`): the first half of its
+    invariant `gwInv` is established by the constructor, it is not an assumption about the user's input -/
+theorem newNetworkProvider_some_distinct (p : PCfg) (P : Provider Strat CNet) (h : mkProvider p = some P)
+    (hg : p.gateway = true) : RV.Oracle.C13.confOk ⟨p.stable, p.canary⟩ = true := by
+  by_cases he : p.canary = p.stable
+  · rw [newNetworkProvider_sameService_refused p hg he] at h; cases h
+  · simp only [RV.Oracle.C13.confOk, bne_iff_ne, ne_eq]
+    exact fun e => he e.symm
+
+/-- `getCanaryServiceName` returns the stable name exactly when no canary Service is generated
+    (`OnlyTrafficRouting` or `DisableGenerateCanaryService`) -/
+theorem canaryServiceName_eq_stable_iff (stable : String) (onlyTR disableGen : Bool) :
+    canaryServiceName stable onlyTR disableGen = stable ↔ (onlyTR || disableGen) = true := by
+  unfold canaryServiceName
+  cases h : (onlyTR || disableGen)
+  · simp only [Bool.false_eq_true, if_false, iff_false]
+    intro e
+    have := congrArg String.length e
+    simp only [String.length_append] at this
+    have h7 : "-canary".length = 7 := by decide
+    omega
+  · simp
+
+/-- **C05 / C07 (`sameService_refused`)** — `DisableGenerateCanaryService` / `OnlyTrafficRouting` together with a
+    Gateway API ref (the region of the fixed finding `sameServiceGateway`): every Manager call returns the error
+    of `newNetworkProvider` instead of completion and **touches no provider object** — the user's HTTPRoute (and
+    every object of the other members of the ref) stays exactly as it is; `DoTrafficRouting` reports *done* only
+    when there is nothing to route, `FinalisingTrafficRouting` never.  Stated with the decidable oracle the driver
+    evaluates on the implementation's output (`sameG = true`: the objects are literally unchanged). -/
+theorem sameService_refused (p : PCfg) (hg : p.gateway = true) (he : p.canary = p.stable)
+    (c : XCtx Strat) (a : Api) (n : XNet CNet) (m : Mem) (bare : Bool) :
+    ((doTrafficRoutingB stratOps (mkProvider p) c a n m bare).net.g = n.g ∧
+      refusedX "doTrafficRouting" c (isStep stratOps c.strategy) true (doTrafficRoutingB stratOps (mkProvider p) c a n m bare) = true) ∧
+    ((finalisingTrafficRoutingX (mkProvider p) c a n m).net.g = n.g ∧
+      refusedX "finalisingTrafficRouting" c (isStep stratOps c.strategy) true (finalisingTrafficRoutingX (mkProvider p) c a n m) = true) ∧
+    (restoreGatewayX (mkProvider p) c a n m = .same false c.hasRef n m a ∧
+      refusedX "restoreGateway" c (isStep stratOps c.strategy) true (restoreGatewayX (mkProvider p) c a n m) = true) ∧
+    (routeAllToNewX stratOps (mkProvider p) c a n m = .same false c.hasRef n m a ∧
+      refusedX "routeAllToNew" c (isStep stratOps c.strategy) true (routeAllToNewX stratOps (mkProvider p) c a n m) = true) ∧
+    (c.hasRef = true → initializeX (mkProvider p) c n = true) := by
+  rw [newNetworkProvider_sameService_refused p hg he]
+  obtain ⟨h1, h2, h3, h4⟩ := refused_untouched (G := CNet) stratOps c a n m bare
+  refine ⟨⟨(refused_doTR stratOps c a n m bare).1, h1⟩, ⟨(refused_finalising c a n m).1, h2⟩,
+    ⟨refused_restoreGateway c a n m, h3⟩, ⟨refused_routeAll stratOps c a n m, h4⟩, ?_⟩
+  intro href
+  unfold initializeX
+  simp only [href, not_true_eq_false, if_false]
+  split <;> rfl
+
+/-- **C07 (`gateway_ref_converges`, full strength: no assumption on the Service names)** — a ref with a Gateway,
+    **whatever** canary Service name the Manager hands to the provider: on a healthy API server, with the stable
+    Service present and the stored route of reachable shape, `DoTrafficRouting` for a step that has something to
+    route reports *done* — or an error the caller sees — after at most 2 further rounds.  With two different
+    names this is `doTRX_converges` for the lawful Gateway provider; with equal names (no canary Service of its
+    own) the provider is refused and the error is returned at once, the route untouched.
+    (Before rollouts commit FIXCOMMIT-sameService a match step doubled the generated rules on every round there
+    and never settled: `sameConf_match_step_grows`.) -/
+theorem gateway_ref_converges (p : PCfg) (hc : p.custom = false) (hi : p.ingress = none) (hg : p.gateway = true)
+    (c : XCtx Strat) (n : XNet CNet) (m : Mem) (href : c.hasRef = true)
+    (hstep : isStep stratOps c.strategy = true) (hex : n.stableExists = true)
+    (hinv : ∀ r, n.g.2.2 = some r → RV.Oracle.C13.inv ⟨p.stable, p.canary⟩ r = true)
+    (hw : ¬ (c.lastUpdate = .fresh ∧ c.doGrace > 0))
+    (hrev : c.noGen = true ∨ (c.stableRev ≠ "" ∧ c.canaryRev ≠ "")) :
+    ∃ k, k ≤ 2 ∧ settled (doTrafficRoutingX stratOps (mkProvider p) c Api.ok
+      (iterNetO stratOps (mkProvider p) c m k n) m) := by
+  by_cases he : p.canary = p.stable
+  · rw [newNetworkProvider_sameService_refused p hg he]
+    obtain ⟨k, hk, hs⟩ := refused_converges (G := CNet) stratOps c n m href hstep hex hw hrev
+    exact ⟨k, by omega, hs⟩
+  · obtain ⟨hmk, hL⟩ := newNetworkProvider_gateway_lawful p hc hi hg he
+    rw [hmk]
+    have hco : RV.Oracle.C13.confOk ⟨p.stable, p.canary⟩ = true := by
+      simp only [RV.Oracle.C13.confOk, bne_iff_ne, ne_eq]
+      exact fun e => he e.symm
+    obtain ⟨k, hk, hs⟩ := doTRX_converges stratOps hL c n m href hstep hex ⟨hco, hinv⟩ hw hrev
+    exact ⟨k, hk, by rw [iterNetO_some]; exact hs⟩
+
+/-- **C05 (`gateway_ref_finalise_total`, full strength: no assumption on the Service names)** — a ref with a
+    Gateway, whatever canary Service name the Manager hands to the provider: when `FinalisingTrafficRouting`
+    reports *done* the two names differ and the route is clean (no canary ref, `Finalise` has nothing to do); with
+    equal names the call is never *done* and the route is **untouched** — the user's own rule for the Service is
+    not taken for the canary rule and dropped (which is what the code did before rollouts commit
+    FIXCOMMIT-sameService: `sameConf_finalise_deletes_user_rule`). -/
+theorem gateway_ref_finalise_total (p : PCfg) (hc : p.custom = false) (hi : p.ingress = none) (hg : p.gateway = true)
+    (c : XCtx Strat) (a : Api) (n : XNet CNet) (m : Mem) (href : c.hasRef = true)
+    (hinv : ∀ r, n.g.2.2 = some r → RV.Oracle.C13.inv ⟨p.stable, p.canary⟩ r = true) :
+    ((finalisingTrafficRoutingX (mkProvider p) c a n m).done = true →
+      p.canary ≠ p.stable ∧ gwCleanB ⟨p.stable, p.canary⟩ (finalisingTrafficRoutingX (mkProvider p) c a n m).net.g.2.2 = true) ∧
+    (p.canary = p.stable → (finalisingTrafficRoutingX (mkProvider p) c a n m).net.g = n.g ∧
+      (finalisingTrafficRoutingX (mkProvider p) c a n m).done = false) := by
+  constructor
+  · intro hd
+    by_cases he : p.canary = p.stable
+    · rw [newNetworkProvider_sameService_refused p hg he] at hd
+      rw [(refused_finalising c a n m).2.2.2.2 href] at hd
+      cases hd
+    · obtain ⟨hmk, hL⟩ := newNetworkProvider_gateway_lawful p hc hi hg he
+      rw [hmk] at hd ⊢
+      have hco : RV.Oracle.C13.confOk ⟨p.stable, p.canary⟩ = true := by
+        simp only [RV.Oracle.C13.confOk, bne_iff_ne, ne_eq]
+        exact fun e => he e.symm
+      obtain ⟨_, _, _, _, _, _, _, _, _, hdone, _⟩ := finalisingX_shape hL c a n m ⟨hco, hinv⟩ href
+      exact ⟨he, (hdone hd).1⟩
+  · intro he
+    rw [newNetworkProvider_sameService_refused p hg he]
+    exact ⟨(refused_finalising c a n m).1, (refused_finalising c a n m).2.2.2.2 href⟩
 
 
 /-! ## the old model `RV.Traffic` is the instance `nginxW` -/
@@ -447,7 +582,7 @@ theorem done_gateway_weights (p : PCfg) (hc : p.custom = false) (hi : p.ingress 
       ∀ (i : Nat) (r : RV.Gateway.Rule), rules[i]? = some r → RV.Oracle.C13.hasSvc r.refs p.stable = true →
         (RV.Oracle.C13.findSvc r.refs p.stable).map (·.weight) = some (some (100 - w)) ∧
         (RV.Oracle.C13.findSvc r.refs p.canary).map (·.weight) = some (some w) := by
-  obtain ⟨hmk, hL⟩ := newNetworkProvider_gateway_lawful p hc hi hg
+  obtain ⟨hmk, hL⟩ := newNetworkProvider_gateway_lawful p hc hi hg (ne_of_gwInv hinv)
   rw [hmk] at hd ⊢
   obtain ⟨_, hin, hspec, _, _⟩ := doneX_means_routed stratOps hL c a n m hinv href
     (weight_step_is_a_step c.strategy w hw) hd
@@ -481,7 +616,7 @@ theorem done_full_all_members (p : PCfg) (cls : RV.Ingress.Class)
     cuStatelessB p.codec c.strategy us (doTrafficRoutingX stratOps (mkProvider p) c a n m).net.g.1 = true ∧
     igFreshB ⟨cls, p.ingName, p.stable, p.canary⟩ c.strategy (doTrafficRoutingX stratOps (mkProvider p) c a n m).net.g.2.1 = true ∧
     gwSpecB ⟨p.stable, p.canary⟩ c.strategy (doTrafficRoutingX stratOps (mkProvider p) c a n m).net.g.2.2 = true := by
-  obtain ⟨P, μ, hmk, hL⟩ := newNetworkProvider_full_lawful p cls us st hc hi hg
+  obtain ⟨P, μ, hmk, hL⟩ := newNetworkProvider_full_lawful p cls us st hc hi hg (ne_of_gwInv hinv.2.2)
   rw [hmk] at hd ⊢
   obtain ⟨_, hin, hspec, _, _⟩ := doneX_means_routed stratOps hL c a n m hinv href hs hd
   exact ⟨hin, hspec.1.2, hspec.2.1.2, hspec.2.2⟩
@@ -493,7 +628,7 @@ theorem finalising_done_full_clean (p : PCfg) (cls : RV.Ingress.Class)
     (c : XCtx Strat) (a : Api) (n : XNet CNet) (m : Mem) (hinv : CInv p cls us st n.g) (href : c.hasRef = true)
     (hd : (finalisingTrafficRoutingX (mkProvider p) c a n m).done = true) :
     cleanB p (finalisingTrafficRoutingX (mkProvider p) c a n m).net.g = true := by
-  obtain ⟨P, μ, hmk, hL⟩ := newNetworkProvider_full_lawful p cls us st hc hi hg
+  obtain ⟨P, μ, hmk, hL⟩ := newNetworkProvider_full_lawful p cls us st hc hi hg (ne_of_gwInv hinv.2.2)
   rw [hmk] at hd ⊢
   obtain ⟨_, _, _, _, _, _, _, _, _, hdone, _⟩ := finalisingX_shape hL c a n m hinv href
   obtain ⟨hcl, _⟩ := hdone hd
@@ -514,12 +649,17 @@ theorem read_fault_reported_full (p : PCfg) (cls : RV.Ingress.Class)
     ((doTrafficRoutingX stratOps (mkProvider p) c a n m).panic = false →
       readFailed a (doTrafficRoutingX stratOps (mkProvider p) c a n m).a = true →
       (doTrafficRoutingX stratOps (mkProvider p) c a n m).err = true) := by
-  obtain ⟨P, μ, hmk, hL⟩ := newNetworkProvider_full_lawful p cls us st hc hi hg
+  obtain ⟨P, μ, hmk, hL⟩ := newNetworkProvider_full_lawful p cls us st hc hi hg (ne_of_gwInv hinv.2.2)
   rw [hmk]
   obtain ⟨h1, h2, _, h4, _⟩ := read_fault_reported stratOps hL c a n m hinv
   exact ⟨h2, h4, h1⟩
 
-/-! ## known finding `sameServiceGateway` (outside `gwInv`: the two Service names coincide) -/
+/-! ## fixed finding `sameServiceGateway`: what the refusal protects from
+
+The two facts below are about the route *builders* (`RV.Gateway.ensureRoutes` / `finalise`) run with a
+configuration the repaired constructor no longer accepts (`newNetworkProvider_sameService_refused`): they record
+what the code did before rollouts commit FIXCOMMIT-sameService and why equal names are refused rather than
+served.  No Manager call reaches the builders with such a configuration any more (`sameService_refused`). -/
 
 section finding
 open RV.Gateway
@@ -531,17 +671,20 @@ def sameConf : Conf := { stable := "svc", canary := "svc" }
 def sameRoute : List Rule :=
   [{ mts := [], filters := "", refs := [{ kind := some "Service", name := "svc", weight := some 1, rest := "{}" }] }]
 
-/-- The full-strength statement of `finalise-restores` for the Gateway provider is FALSE when the canary Service
-    name equals the stable one (which is what `DisableGenerateCanaryService` and `OnlyTrafficRouting` hand to
-    *every* provider): a weight step followed by `Finalise` **deletes the user's rule** — the HTTPRoute is left
-    without any rule for the Service.  (`gateway_lawful` excludes the region through `confOk` in `gwInv`.) -/
-theorem gateway_sameService_full_FALSE :
+/-- the configuration is refused by `newNetworkProvider` … -/
+theorem sameConf_refused (p : PCfg) (hg : p.gateway = true) (hs : p.stable = sameConf.stable)
+    (hc : p.canary = sameConf.canary) : mkProvider p = none :=
+  newNetworkProvider_sameService_refused p hg (by rw [hs, hc]; rfl)
+
+/-- … because the builders cannot tell the user's backendRef from the canary ref there: a weight step followed by
+    `Finalise` would **delete the user's rule** (test on a literal) -/
+theorem sameConf_finalise_deletes_user_rule :
     RV.Oracle.C13.confOk sameConf = false ∧
     (finalise sameConf (ensureRoutes sameConf (some sameRoute) { traffic := some (.pct 20), ms := [] }).store).store
       = some [] := by decide
 
-/-- … and a match step never converges there: every round doubles the generated rules (C07) -/
-theorem gateway_sameService_grows :
+/-- … and a match step would double the generated rules on every round (test on a literal) -/
+theorem sameConf_match_step_grows :
     let s : Step := { traffic := none, ms := [{ path := none, headers := [⟨some "Exact", "user", "a"⟩], queryParams := [] }] }
     let r1 := (ensureRoutes sameConf (some sameRoute) s).store
     let r2 := (ensureRoutes sameConf r1 s).store
@@ -589,6 +732,34 @@ example : (doTrafficRoutingX stratOps (some (gwProvider c0)) exCtx { r := some 3
 example : (finalisingTrafficRoutingX (some (gwProvider c0)) { exCtx with grace := 0 } Api.ok
       { exNet with g := (doTrafficRoutingX stratOps (some (gwProvider c0)) exCtx Api.ok exNet Mem.empty).net.g }
       Mem.empty).writes = ["unpinStable", "updateRoute", "deleteCanarySvc"] := by decide
+
+/-- the region of `sameService_refused` is inhabited by an ordinary configuration — `disableGenerateCanaryService`
+    with a Gateway ref —, and its conclusion is not vacuous: the weight step returns the error with the user's
+    route as it was, and so does the clean-up (tests on literals; before the repair the same walk ended with the
+    rule for `svc` deleted: `sameConf_finalise_deletes_user_rule`) -/
+def sameP : PCfg :=
+  { custom := false, ingress := none, gateway := true, stable := "svc", canary := canaryServiceName "svc" false true,
+    ingName := "ing", codec := ⟨fun _ => "{}", fun _ => default⟩ }
+def sameCtx : XCtx Strat := { exCtx with disableGen := true, grace := 0, strategy := { traffic := some "20%", mts := [], rhm := none } }
+def sameNet : XNet CNet :=
+  { stableExists := true, stableSel := none, canarySvc := none, g := ([], (⟨none, none⟩, some sameRoute)) }
+
+example : sameP.gateway = true ∧ sameP.canary = sameP.stable ∧ sameCtx.noGen = true := by decide
+
+example : (mkProvider sameP).isNone = true := by
+  rw [newNetworkProvider_sameService_refused sameP rfl (by decide)]; rfl
+
+example :
+    (doTrafficRoutingB stratOps (none : Option (Provider Strat CNet)) sameCtx Api.ok sameNet Mem.empty false).err = true ∧
+    (doTrafficRoutingB stratOps (none : Option (Provider Strat CNet)) sameCtx Api.ok sameNet Mem.empty false).net.g.2.2 = some sameRoute ∧
+    (finalisingTrafficRoutingX (none : Option (Provider Strat CNet)) sameCtx Api.ok sameNet Mem.empty).err = true ∧
+    (finalisingTrafficRoutingX (none : Option (Provider Strat CNet)) sameCtx Api.ok sameNet Mem.empty).net.g.2.2 = some sameRoute := by
+  decide
+
+/-- the hypotheses of `gateway_ref_converges` / `gateway_ref_finalise_total` are met on both sides of the case
+    split: equal names (above) and two different names with a non-trivial user route -/
+example : c0.canary ≠ c0.stable ∧ ∀ r, some o0 = some r → RV.Oracle.C13.inv c0 r = true :=
+  ⟨by decide, fun r h => by cases h; decide⟩
 
 end examples
 
